@@ -274,16 +274,37 @@ def run(prop, tier, sd, rep, clauses, modes):
         ntraces = len(events_by_tr)
         if ntraces == 0:
             raise pl.ExitTwo('no execution was recorded')
-        dd = [ds.tla_decl(byid[i]) for i in ok]
-        r = pl.tlc(w, 'InjectorReq', 'InjectorReq.cfg', files={'decls.json': json.dumps(dd), 'trace.ndjson': '\n'.join(lines) + '\n'},
-                   workers=1, timeout=3000, name='req')
-        vp = os.path.join(r['dir'], 'viol.json')
-        if r['rc'] != 0 or not os.path.exists(vp):
-            raise pl.ExitTwo('trace validation against InjectorReq.tla failed (rc=%s): %s %s' % (r['rc'], r['out'][-3000:], r['err'][-1000:]))
-        vj = json.load(open(vp))
-        if vj['lines'] != len(lines):
-            raise pl.ExitTwo('InjectorReq consumed %d of %d trace lines' % (vj['lines'], len(lines)))
-        req_states, _ = pl.tlc_stats(r['out'])
+        # validate against InjectorReq.tla in parallel chunks (executions grouped by declaration; one TLC process each)
+        decl_of_tr = {tr: evs[0].get('decl') for tr, evs in events_by_tr.items() if evs and evs[0].get('ev') == 'Call'}
+        nchunk = max(1, min(pl.NCPU, len(lines) // 40000 + 1))
+        dl = sorted({d for d in decl_of_tr.values() if d})
+        chunk_of = {d: k % nchunk for k, d in enumerate(dl)}
+        clines = [[] for _ in range(nchunk)]
+        for tr in sorted(events_by_tr):
+            d = decl_of_tr.get(tr)
+            if d is None:
+                continue
+            clines[chunk_of[d]].extend(json.dumps(e) for e in events_by_tr[tr])
+
+        def req_chunk(k):
+            if not clines[k]:
+                return {'viol': [], 'lines': 0}, 0
+            dd = [ds.tla_decl(byid[i]) for i in dl if chunk_of[i] == k]
+            r = pl.tlc(w, 'InjectorReq', 'InjectorReq.cfg', files={'decls.json': json.dumps(dd), 'trace.ndjson': '\n'.join(clines[k]) + '\n'},
+                       workers=1, timeout=6000, name='req-%d' % k)
+            vp = os.path.join(r['dir'], 'viol.json')
+            if r['rc'] != 0 or not os.path.exists(vp):
+                raise pl.ExitTwo('trace validation against InjectorReq.tla failed (rc=%s): %s %s' % (r['rc'], r['out'][-3000:], r['err'][-1000:]))
+            vjk = json.load(open(vp))
+            if vjk['lines'] != len(clines[k]):
+                raise pl.ExitTwo('InjectorReq consumed %d of %d trace lines' % (vjk['lines'], len(clines[k])))
+            st_, _ = pl.tlc_stats(r['out'])
+            return vjk, st_
+        vj = {'viol': []}
+        req_states = 0
+        for vjk, st_ in pl.pmap(req_chunk, range(nchunk), workers=min(nchunk, 8)):
+            vj['viol'].extend(vjk['viol'])
+            req_states += st_
 
         real_sigs = collections.defaultdict(list)   # sig -> [(decl, tr)]
         for v in vj['viol']:
